@@ -45,7 +45,7 @@ From AV Require Import Base.Bytes Base.Outcome Hash.HashModel Tree.Heap Tree.Ops
 From AV Require Import Tree.Script2 Tree.InvLoad Tree.InvProofsOp2Full Tree.InvProofsLoadExamples Tree.InvProofsOp2Lift
   Tree.InvProofsOp2Real Tree.InvEBase Tree.InvProofsLoadLive Tree.InvProofsOp2Live Tree.InvProofsOp2Rej.
 From AV Require Xml.TablesOk.
-From AV Require Tree.Load Tree.MergeSpec.
+From AV Require Tree.Load Tree.MergeSpec Tree.LoadProofsRefuted.
 Open Scope string_scope.
 Open Scope list_scope.
 Open Scope N_scope.
@@ -292,6 +292,14 @@ Theorem C03_histories2_real_full :
     run_ops2 RT tab_el tab_at tab_en check_fn float_parse float_fmt LATEST name_index name_definition_ref
              attr_schema_location root_attrs l empty_world = Val w' -> RealInvL RT w'.
 Proof. exact RealInvL_histories2_real_full. Qed.
+
+(* non-vacuity of the rejected-load and of the RealInvL theorems (tiny tables) *)
+Theorem C03_load_rejected_core :
+  MergeSpec.TinyM.load_tree "b" LoadProofsRefuted.conf_b w_rej_before = Val (ER InvalidFileMerge, w_rej_after) /\ Core w_rej_after.
+Proof. exact load_rejected_core. Qed.
+
+Theorem C03_load_master_real : RealInvL MergeSpec.TinyM.tiny w_f01.
+Proof. exact load_master_real. Qed.
 
 (* ---------- the artefact classes are empty on the real tables ---------- *)
 (* CharsLeaf: an element whose content mode is Characters has no sub-elements; kept by every operation, every table set *)
